@@ -2,6 +2,8 @@
 # Applies every /verif/seeded/<id>-<n>/patch.diff to /repo, runs the property's quick check, reverts.
 cd /verif || exit 2
 ./setup.sh >/dev/null || exit 2
+# evidence files are rewritten by every check run: keep the ones of the unchanged tree
+rm -rf /tmp/evidence.keep.$$; cp -r /verif/evidence /tmp/evidence.keep.$$; trap 'rm -rf /verif/evidence; mv /tmp/evidence.keep.'$$' /verif/evidence; rm -rf /verif/replays/*' EXIT
 if [ -n "$(git -C /repo status --porcelain)" ]; then echo "refusing to run: /repo has uncommitted changes (this script reverts the working tree)"; exit 2; fi
 for d in seeded/${1:-*}/; do
   name=$(basename "$d"); prop=${name%%-*}
